@@ -24,7 +24,7 @@ def alphabet():
             if kind != "set" and not s:
                 continue
             ops.append((kind + " " + " ".join(map(str, s))).strip())
-    ops += ["raise %d" % s for s in SIGS] + ["dispatch", "drop"]
+    ops += ["raise %d" % s for s in SIGS] + ["dispatch", "drop", "appblock"]
     return ops
 
 
@@ -65,6 +65,7 @@ def split_cases(lines):
 def spec_c19(case, trace):
     """C19's clauses on the implementation's answers, from the operations alone (no model involved)."""
     alive, mask, pending = False, set(), set()
+    app = set()          # blocked by the application itself, never given to the source
     handled = {s: 0 for s in SIGS}
     reported = []
     for l in trace:
@@ -101,12 +102,15 @@ def spec_c19(case, trace):
                 pending.add(s)                      # coalesces
             else:
                 handled[s] += 1                     # normal disposition: the process handler
+        elif w[0] == "appblock":
+            app = {23}
         elif w[0] == "dispatch" and alive:
             for s in sorted(pending & mask):
                 reported.append(s)
             pending -= mask
-        if sorted(got_blocked) != sorted(mask if alive else []):
-            return "after `%s` the thread blocks %s, the configured set is %s" % (op, got_blocked, sorted(mask))
+        if sorted(got_blocked) != sorted((mask if alive else set()) | app):
+            return "after `%s` the thread blocks %s; the configured set is %s and the application itself blocks %s" % (
+                op, got_blocked, sorted(mask if alive else []), sorted(app))
         if got_handled != [handled[s] for s in SIGS]:
             return "after `%s` the process handlers ran %s times, expected %s (a configured signal's pending instance went to the handler, or an unconfigured one was swallowed)" % (op, got_handled, [handled[s] for s in SIGS])
         if got_reported != reported:
